@@ -18,8 +18,11 @@ from pathlib import Path
 VERIF = Path(__file__).resolve().parent.parent
 REPO = Path(os.environ.get("VERIF_REPO", "/repo"))
 COQ = VERIF / "coq"
-EVIDENCE = VERIF / "evidence"
-REPLAY = VERIF / "replay"
+# development runs against a scratch worktree (VERIF_REPO set by tools/seed_try2) must not overwrite the evidence and replay
+# files of /repo: they go to a scratch directory named after the worktree
+_DEV = None if str(REPO) == "/repo" else Path("/tmp/verif_dev") / REPO.name
+EVIDENCE = VERIF / "evidence" if _DEV is None else _DEV / "evidence"
+REPLAY = VERIF / "replay" if _DEV is None else _DEV / "replay"
 NCPU = os.cpu_count() or 4
 
 ALLOWED_AXIOMS: set[str] = set()  # the development is axiom-free; see DESIGN.md section 7
@@ -250,7 +253,7 @@ class Check:
         self.discharged = 0
         self.trusted: list[str] = []
         self.notes: dict = {}
-        REPLAY.mkdir(exist_ok=True)
+        REPLAY.mkdir(parents=True, exist_ok=True)
         for old in REPLAY.glob(f"{pid}_*.json"):
             old.unlink()
 
@@ -358,7 +361,7 @@ class Check:
             "violations": len(self.violations),
             "known_findings_reported": self.known_lines,
         }
-        EVIDENCE.mkdir(exist_ok=True)
+        EVIDENCE.mkdir(parents=True, exist_ok=True)
         (EVIDENCE / f"{self.pid}.json").write_text(json.dumps(ev, indent=1, default=str))
         print(f"[{self.pid}] tier={tier()} seed={seed()} obligations={self.obligations} "
               f"discharged={self.discharged} evaluations={self.evaluations} "
